@@ -32,8 +32,7 @@ MANIFEST = dict(
          "is Z/Q. NOT modelled (external crates; only round-tripped on the implementation and compared with Python's base64/gzip/json): "
          "base64_encode/decode, compress/decompress, json_encode/json_decode, and the parser that reads JSON text / repr output as a "
          "Noulith literal. f64 parsing in number(s) is a parameter of the model. Exponents of huge magnitude (|e| > 5000) are exercised "
-         "only where the answer is immediate (i32 overflow paths); 10^(2^31) is never computed. Known finding json-float-exp-plus "
-         "(JSON float text 1e+21 is not a Noulith literal; lexer, C15's area) is matched structurally and reported, not failed.",
+         "only where the answer is immediate (i32 overflow paths); 10^(2^31) is never computed.",
     design="6-C16")
 
 I63 = 2 ** 63
@@ -152,9 +151,10 @@ def canon(v):
     raise ValueError(v)
 
 
-def nfloat(x):
+def nfloat(x, rng=None):
     r = repr(x)
-    return r.replace("e+", "e")
+    # 1e+21 and 1e21 are both literals (the former since /repo 8047616): use either spelling
+    return r if (rng is not None and rng.random() < 0.5) else r.replace("e+", "e")
 
 
 def nlit(v, rng=None):
@@ -164,7 +164,7 @@ def nlit(v, rng=None):
     if isinstance(v, int):
         return str(v)
     if isinstance(v, float):
-        return nfloat(x=v)
+        return nfloat(v, rng)
     if isinstance(v, str):
         return nstr(v, rng)
     if isinstance(v, list):
@@ -580,8 +580,8 @@ def printable(rng):
 
 
 def text_has_exp_plus(text):
-    """structural matcher of the known finding json-float-exp-plus: outside string literals the JSON text
-    contains a number written <digits>e+<digits>"""
+    """coverage counter: outside string literals the JSON text contains a number written <digits>e+<digits>
+    (what json_encode / Python print for large floats; a parse error as a literal before /repo 8047616)"""
     bare = re.sub(r'"(?:[^"\\]|\\.)*"', '""', text)
     return re.search(r"[0-9][eE]\+[0-9]", bare) is not None
 
@@ -790,15 +790,8 @@ def evaluate(ctx, cases, runner):
         if c.get("check"):
             ok, detail = check_custom(c, obs, follow.get(i))
             c["check_detail"] = detail
-            if (c.get("lit") and not ok and c.get("follow_status") == "parse" and text_has_exp_plus(c.get("follow_src", ""))
-                    and "json-float-exp-plus" in ctx.known):
-                ctx.known_hit("json-float-exp-plus", c["src"])
-                continue
             if crashed or not ok:
                 bad.append(("property", c))
-            continue
-        if c.get("lit") and obs == "parse" and text_has_exp_plus(c["src"]) and "json-float-exp-plus" in ctx.known:
-            ctx.known_hit("json-float-exp-plus", c["src"])
             continue
         if crashed or obs == "parse" or (c["expect"] is not None and obs != c["expect"]):
             bad.append(("property", c))
@@ -879,6 +872,8 @@ def run(ctx):
             "probes": sum(1 for c in cases if c["fam"] == "render-probe")},
         "disagreements_by_kind": {f"{k[0]}/{k[1]}": v for k, v in seen.items()},
         "release_build_cross_checked": release_checked,
+        "json_literal_texts_with_e_plus_exponent": sum(1 for c in cases if c.get("lit") and text_has_exp_plus(c.get("follow_src") or c["src"])),
+        "programs_with_e_plus_float_literal": sum(1 for c in cases if c["fam"] in ("json-roundtrip", "json-encode", "repr-eval", "literal") and text_has_exp_plus(c["src"])),
     })
     ctx.assumptions += ["BigInt/Ratio<BigInt> arithmetic of num-bigint/num-rational is exact (Z, Q)",
                         "str::find/trim/strip_prefix, char::to_digit/from_digit/from_u32, String::from_utf8 mean what the model says",
